@@ -421,10 +421,11 @@ fn mutate(text: &str, muts: &[(u8, u16, u16)]) -> String {
             }
         }
         if s.len() > 6000 {
-            s.truncate(6000);
-            while !s.is_char_boundary(s.len()) {
-                s.pop();
+            let mut cut = 6000;
+            while !s.is_char_boundary(cut) {
+                cut -= 1;
             }
+            s.truncate(cut);
         }
     }
     s
@@ -531,10 +532,15 @@ fn wrap(gen_kind: &str, text: String, cfg: &(usize, u8, bool, u8)) -> Value {
 }
 
 pub fn run(ctx: &mut Ctx) {
-    ctx.rule = "Inputs: (a) byte strings, printable-ASCII strings and bracket soups; (b) token soups over the RSSL token table incl. extreme literals and directive words; (c) generated programs, valid and with 1-3 mutations (delete / duplicate / swap spans, insert tokens, extreme literals 99999999999999999999 / 4294967296 / 1e999 / 0x, unterminated comments / strings / conditionals, self-referential defines, truncation, up to 6 cast-like prefixes, bracket flips); (d) expressions wrapped in up to 12 parentheses / blocks with up to 6 ambiguous cast-like prefixes; (e) the repository's own .rssl/.hlsl inputs with the same mutations; (f'') exhaustively, 47 type spellings (every resource / object type the front end knows, structs that are empty, recursive or hold arrays of structs, matrices, doubles, 64-bit integers, void, typedef'd arrays, nested resources) x 16 places a type can be written (extern / static / const / groupshared global, array, local, parameter, out parameter, return type, struct member of a global / of a structured buffer element / of a typed raw load and store, cbuffer member, typedef, template argument, sizeof / cast / comparison) x 5 targets x {all, no-pipeline} x layout validation; comparison chains `a < a < ... > (a)` of 2-41 operators; (f') Pipeline definitions and StaticSampler initialisers with 0-8 properties per block from 30 known / unknown / misspelt names (repeated on purpose) and 40 values (entry points incl. declared-only, overloaded and namespaced functions, format and state strings, numbers, words, expressions, nested blocks to depth 2), missing semicolons; (f) a catalogue of unsupported or unusual constructs (packoffset, register space4, huge bind groups, bodiless entry points, duplicate pipeline names, ## on API defines, recursive includes ...) ; x {DirectX, Vulkan, Vulkan+buffer addresses, Metal, Metal bytecode} x {all, named, no-pipeline} x layout validation on/off x API defines. Oracle (in a supervised worker process): compile returns; an error renders to a non-empty string; no panic (caught, keyed by source file + normalised message), no process death (SIGSEGV = stack overflow, SIGABRT), CPU time <= 2 s per 4 KB (re-run alone before reporting; 60 s wall kill switch). Non-trivial = input of >= 24 bytes. Distinct = hash of the record.".into();
+    ctx.rule = "Inputs: (a) byte strings, printable-ASCII strings and bracket soups; (b) token soups over the RSSL token table incl. extreme literals and directive words; (c) generated programs, valid and with 1-3 mutations (delete / duplicate / swap spans, insert tokens, extreme literals 99999999999999999999 / 4294967296 / 1e999 / 0x, unterminated comments / strings / conditionals, self-referential defines, truncation, up to 6 cast-like prefixes, bracket flips); (d) expressions wrapped in up to 12 parentheses / blocks with up to 6 ambiguous cast-like prefixes; (e) the repository's own .rssl/.hlsl inputs with the same mutations; (f'') exhaustively, 47 type spellings (every resource / object type the front end knows, structs that are empty, recursive or hold arrays of structs, matrices, doubles, 64-bit integers, void, typedef'd arrays, nested resources) x 16 places a type can be written (extern / static / const / groupshared global, array, local, parameter, out parameter, return type, struct member of a global / of a structured buffer element / of a typed raw load and store, cbuffer member, typedef, template argument, sizeof / cast / comparison) x 5 targets x {all, no-pipeline} x layout validation; comparison chains `a < a < ... > (a)` of 2-41 operators; (f') Pipeline definitions and StaticSampler initialisers with 0-8 properties per block from 30 known / unknown / misspelt names (repeated on purpose) and 40 values (entry points incl. declared-only, overloaded and namespaced functions, format and state strings, numbers, words, expressions, nested blocks to depth 2), missing semicolons; (f) a catalogue of unsupported or unusual constructs (packoffset, register space4, huge bind groups, bodiless entry points, duplicate pipeline names, ## on API defines, recursive includes ...) ; x {DirectX, Vulkan, Vulkan+buffer addresses, Metal, Metal bytecode} x {all, named, no-pipeline} x layout validation on/off x API defines. In the thorough tier a libFuzzer campaign (fork mode, all cores, 600 s; target fuzz/fuzz_targets/compile_total.rs with the same oracle in-process) follows, whose artifacts are judged again by this check. Oracle (in a supervised worker process): compile returns; an error renders to a non-empty string; no panic (caught, keyed by source file + normalised message), no process death (SIGSEGV = stack overflow, SIGABRT), CPU time <= 2 s per 4 KB (re-run alone before reporting; 60 s wall kill switch). Non-trivial = input of >= 24 bytes. Distinct = hash of the record.".into();
     ctx.assumptions.push("the harness (and its workers) are built with debug assertions and overflow checks on, like the repository's own cargo test; a plain release build is not separately explored".into());
     ctx.assumptions.push("Metal bytecode is expected to end in MetalCompilerNotFound in this sandbox, which counts as a clean result".into());
     if !ctx.replay_tier(&check_record) {
+        return;
+    }
+    if ctx.tier == Tier::Thorough && std::env::var("VERIF_FUZZ_ONLY").is_ok() {
+        // exploration aid: only the coverage-guided stage
+        fuzz_campaign(ctx, &repo_inputs());
         return;
     }
     let cfg0 = (0usize, 1u8, false, 1u8);
@@ -731,4 +737,32 @@ pub fn run(ctx: &mut Ctx) {
     for l in ["result_ok", "result_err", "stage_lex", "stage_parse", "stage_type_or_later", "gen_generated_valid", "gen_generated_mutated", "gen_repo_mutated"] {
         ctx.require_label(l, 20);
     }
+    if ctx.tier == Tier::Thorough && ctx.failures.is_empty() && std::env::var("VERIF_NO_FUZZ").is_err() {
+        fuzz_campaign(ctx, &repo);
+    }
+}
+
+/// Coverage-guided stage of the thorough tier (see `crate::fuzz::campaign`): target compile_total, whose first input
+/// byte selects target, pipeline mode and layout validation.
+fn fuzz_campaign(ctx: &mut Ctx, repo: &[String]) {
+    // generated programs as well: the fuzzer mutates well-formed text of every construct the generator knows
+    let generated: Vec<String> = sample_strategy(&progen::choices_strategy(400), ctx.seed ^ 0xf022, 240)
+        .iter()
+        .enumerate()
+        .map(|(i, ch)| progen::generate(ch, if i % 2 == 0 { progen::Profile::full() } else { progen::Profile::exec_hlsl() }).1)
+        .collect();
+    let mut seeds: Vec<Vec<u8>> = Vec::new();
+    for text in repo.iter().map(|s| s.as_str()).chain(SPECIALS.iter().copied()).chain(generated.iter().map(|s| s.as_str())) {
+        for cfg in [0u8, 3, 5, 7, 9, 14] {
+            let mut bytes = vec![cfg];
+            bytes.extend_from_slice(text.as_bytes());
+            seeds.push(bytes);
+        }
+    }
+    let to_record = |bytes: &[u8]| -> Value {
+        let cfg = bytes[0];
+        let text = String::from_utf8_lossy(&bytes[1..]).to_string();
+        wrap("fuzz_artifact", text, &((cfg & 3) as usize, if cfg & 4 != 0 { 1 } else { 0 }, cfg & 8 != 0, 1))
+    };
+    crate::fuzz::campaign(ctx, "compile_total", None, seeds, 600, &to_record, &check_record);
 }
